@@ -358,8 +358,9 @@ class Run:
             return
         procs = []
         per = max(1, (ncases * intensify + shards - 1) // shards)
+        self.runno = getattr(self, "runno", 0) + 1
         for s in range(shards):
-            trace = os.path.join(self.scratch, "%s-%d.trace" % (engine, s))
+            trace = os.path.join(self.scratch, "%s-r%d-%d.trace" % (engine, self.runno, s))
             work = os.path.join(self.scratch, "work-%s-%d" % (engine, s))
             os.makedirs(work, exist_ok=True)
             cmd = [self.hx, engine, "-seed", str(self.seed * 1000003 + s), "-n", str(per), "-tier", self.tier, "-out", trace, "-work", work]
@@ -410,9 +411,13 @@ class Run:
                 d[engine + "." + k] = d.get(engine + "." + k, 0) + int(v)
             elif l.startswith("#nontrivial "):
                 seen.add(l)
-            elif l and not l.startswith("#") and self.cfg.get("distinct_by_line", True):
+            elif l and not l.startswith("#"):
                 lhs = l.split(" => ")[0]
-                if self.nontrivial_line(lhs):
+                pref = self.cfg.get("distinct_prefixes")
+                if pref is not None:
+                    if any(lhs.startswith(p) for p in pref) and lhs not in ("variant clean",):
+                        seen.add(hashlib.sha1(lhs.encode()).digest()[:8])
+                elif self.nontrivial_line(lhs):
                     seen.add(hashlib.sha1(lhs.encode()).digest()[:8])
         if len(self.cov["samples"]) < 4:
             for l in lines:
@@ -439,12 +444,18 @@ class Run:
     # ------------------------------------------------------------------ verdict
     def load_known(self):
         known = []
-        p = os.path.join(VERIF, "known_findings.jsonl")
+        p = os.path.join(VERIF, "known_findings.txt")
         if os.path.exists(p):
             for l in open(p):
                 l = l.strip()
-                if l and not l.startswith("#"):
-                    known.append(json.loads(l))
+                m = re.match(r"(known|fixed): property=(\S+)\s+(.*?)\s*::\s*(.*)", l)
+                if not m:
+                    continue
+                status, prop, mid, what = m.groups()
+                key = re.search(r"key=(\S+)", mid)
+                wit = re.search(r"witness=(\S+)", mid)
+                known.append({"status": status, "property": prop, "key": key.group(1) if key else None,
+                              "witness": wit.group(1) if wit else None, "what": what})
         return [k for k in known if k.get("property") == self.prop]
 
     def write_replay(self, tag, header, body_lines):
